@@ -62,12 +62,13 @@ func NewPartitionRouter(ctx context.Context, client *clientv3.Client, logger *sl
 		routes: make(map[string]string),
 	}
 
-	if err := r.loadAll(ctx); err != nil {
+	rev, err := r.loadAll(ctx)
+	if err != nil {
 		cancel()
 		return nil, fmt.Errorf("load initial partition routes: %w", err)
 	}
 
-	go r.watch(watchCtx)
+	go r.watch(watchCtx, rev)
 	return r, nil
 }
 
@@ -114,10 +115,12 @@ func (r *PartitionRouter) Stop() {
 	r.cancel()
 }
 
-func (r *PartitionRouter) loadAll(ctx context.Context) error {
+// loadAll replaces the routing table with a full read and returns the etcd
+// revision that read reflects, so the watch can resume right after it.
+func (r *PartitionRouter) loadAll(ctx context.Context) (int64, error) {
 	resp, err := r.client.Get(ctx, partitionLeasePrefix+"/", clientv3.WithPrefix())
 	if err != nil {
-		return err
+		return 0, err
 	}
 	fresh := make(map[string]string, len(resp.Kvs))
 	for _, kv := range resp.Kvs {
@@ -132,12 +135,15 @@ func (r *PartitionRouter) loadAll(ctx context.Context) error {
 	r.routes = fresh
 	r.mu.Unlock()
 	r.logger.Info("loaded partition routes from etcd", "count", len(fresh))
-	return nil
+	return resp.Header.Revision, nil
 }
 
-func (r *PartitionRouter) watch(ctx context.Context) {
+// watch applies lease events starting right after revision rev (the revision
+// the routing table already reflects), so no change between the full read and
+// the establishment of the watch stream is lost.
+func (r *PartitionRouter) watch(ctx context.Context, rev int64) {
 	for {
-		watchChan := r.client.Watch(ctx, partitionLeasePrefix+"/", clientv3.WithPrefix(), clientv3.WithPrevKV())
+		watchChan := r.client.Watch(ctx, partitionLeasePrefix+"/", clientv3.WithPrefix(), clientv3.WithPrevKV(), clientv3.WithRev(rev+1))
 		for resp := range watchChan {
 			if resp.Err() != nil {
 				r.logger.Warn("partition lease watch error", "error", resp.Err())
@@ -161,6 +167,9 @@ func (r *PartitionRouter) watch(ctx context.Context) {
 				}
 			}
 			r.mu.Unlock()
+			if resp.Header.Revision > rev {
+				rev = resp.Header.Revision
+			}
 		}
 
 		// Watch channel closed. If the context is done, exit for good.
@@ -172,8 +181,10 @@ func (r *PartitionRouter) watch(ctx context.Context) {
 		// Reseed the routing table from a full read and re-establish the watch.
 		r.logger.Warn("partition lease watch stream closed, reconnecting")
 		time.Sleep(time.Second)
-		if err := r.loadAll(ctx); err != nil {
+		if newRev, err := r.loadAll(ctx); err != nil {
 			r.logger.Warn("partition lease watch reconnect: reload failed", "error", err)
+		} else {
+			rev = newRev
 		}
 	}
 }
